@@ -607,6 +607,17 @@ func (r *ChannelReservation) CommitConstraints(
 		return err
 	}
 
+	// The delay leaves of the final taproot scripts end with
+	// `<csv_delay> OP_CHECKSEQUENCEVERIFY`, which leaves the delay itself
+	// as the result of the script. With a delay of zero the to_local
+	// output and every second-level HTLC output of our own commitment
+	// could never be spent, so we refuse such a delay.
+	if r.partialState.ChanType.IsTaprootFinal() &&
+		commitParams.CsvDelay == 0 {
+
+		return ErrCsvDelayZero()
+	}
+
 	// Our dust limit should always be less than or equal to our proposed
 	// channel reserve.
 	if responder && r.ourContribution.DustLimit > bounds.ChanReserve {
